@@ -9,6 +9,16 @@ import PetgraphModel.Proofs.C17W3Obs
 import PetgraphModel.Proofs.C17W3Graph
 import PetgraphModel.Proofs.C17W3GraphObs
 import PetgraphModel.Proofs.C17W3Map
+import PetgraphModel.Proofs.C17W4Text
+import PetgraphModel.Proofs.C17W4Bin
+import PetgraphModel.Proofs.C17W4Check
+import PetgraphModel.Proofs.C17W4Judge
+import PetgraphModel.Proofs.C17W4Wire
+import PetgraphModel.Proofs.C17W4MapWire
+import PetgraphModel.Proofs.C17W4Preserved
+import PetgraphModel.Proofs.C17W4Iter
+import PetgraphModel.Proofs.C17W4Next
+import PetgraphModel.Proofs.C17W4Complete
 import PetgraphModel.Theorems.C01
 import PetgraphModel.Theorems.C02
 import PetgraphModel.Theorems.C03
@@ -775,5 +785,450 @@ example : (match deStable 255 true [.p, .e, .h, .n]
                 | .ok (t, _) => t.nodeCount == 3 && t.edgeCount == 0 && SG.nodeIndices t == [0, 1, 3]
                 | .error _ => false)
     | _ => false) = true := by decide
+
+/-! ### wave 4 (a): the transports, down to characters and bytes
+
+Until here everything between the bytes and the wire value was trusted.  `Spec/SerdeText.lean` models the JSON text
+`serde_json::to_string` emits for the wire struct (`printWire`) with a reader of that grammar (`parseWire`), and
+bincode's fixed-width little-endian layout (`binWire` / `parseBin`).  The driver compares the implementation's ACTUAL
+text and bytes with the printers' output for the mirror model's wire value (`ser … js`, `ser … bin`), reads the
+implementation's text / bytes with the modelled readers before judging them, and checks every bincode stream and every
+canonical JSON text it feeds to a deserializer against the wire value the harness states for it. -/
+
+open PetgraphModel.SerdeText PetgraphModel.SerdeSpec PetgraphModel.SerdeCheck
+
+/-- **JSON text round trip**: the reader inverts the printer, for EVERY wire value (any numbers, any length, unknown
+`edge_property` tags included). -/
+theorem C17_json_roundtrip (w : Wire) : parseWire (printWire w) = some w := parseWire_printWire w
+
+/-- hence two different wire values never share a JSON text: comparing texts is comparing wire values. -/
+theorem C17_json_print_injective (w w' : Wire) (h : printWire w = printWire w') : w = w' := printWire_injective w w' h
+
+example : printWire { nodes := [1, -2, 30], holes := [1], prop := some true, edges := [some (0, 2, 5), none] } =
+    "{\"nodes\":[1,-2,30],\"node_holes\":[1],\"edge_property\":\"directed\",\"edges\":[[0,2,5],null]}".toList := by decide
+
+/-- **bincode round trip**: for an index type of `iw` bytes the byte reader inverts the byte printer on every wire
+value whose numbers fit their fields (`binFits`: weights in `i32`, indices below `256^iw`, lengths below `2^64`; checked
+by the driver at run time on every stream it compares); trailing bytes are left untouched. -/
+theorem C17_bincode_roundtrip (iw : Nat) (w : Wire) (hf : binFits iw w = true) (rest : List Nat) :
+    parseBin iw (binWire iw w ++ rest) = some (w, rest) := parseBin_binWire iw w hf rest
+
+theorem C17_bincode_injective (iw : Nat) (w w' : Wire) (hf : binFits iw w = true) (hf' : binFits iw w' = true)
+    (h : binWire iw w = binWire iw w') : w = w' := binWire_injective iw w w' hf hf' h
+
+/-- non-vacuity: a stream with a negative weight, a hole and a vacant edge fits `u8` indices; its bytes -/
+example : binFits 1 { nodes := [1, -2], holes := [1], prop := some false, edges := [some (0, 2, -6), none] } = true ∧
+    binWire 1 { nodes := [1, -2], holes := [1], prop := some false, edges := [some (0, 2, -6), none] } =
+      [2, 0, 0, 0, 0, 0, 0, 0, 1, 0, 0, 0, 254, 255, 255, 255, 1, 0, 0, 0, 0, 0, 0, 0, 1, 0, 0, 0, 0,
+       2, 0, 0, 0, 0, 0, 0, 0, 1, 0, 2, 250, 255, 255, 255, 0] := by decide
+
+/-- the range hypothesis cannot be dropped: index `256` does not fit one byte, and is read back as `0` -/
+theorem C17_bincode_needs_fit :
+    parseBin 1 (binWire 1 { nodes := [], holes := [256], prop := some true, edges := [] }) =
+      some ({ nodes := [], holes := [0], prop := some true, edges := [] }, []) := by decide
+
+/-! ### wave 4 (b): soundness of the spec-level judges
+
+`Spec/Serde.lean` / `Spec/SerdeCheck.lean` are executable: `wireValid` ("this is the stream of a valid graph"),
+`absWire` (the graph a stream denotes), `obsConsistent` (the consistency guarantees visible in an observation),
+`obsMatches` / `judgeObs` (the observation shows exactly this abstract graph), `judgeSer`, `judgeRoundTrip`.  Each is
+proved sound w.r.t. a declarative statement: `WireOK`, `ObsOK`, `MapObsOK`, `List.Perm` (equality of multisets). -/
+
+/-- well-formed stream of a graph of the kind, declaratively: the stream lists the `Somes` and `Holes` of a sequence of
+node slots within the index type, every edge joins present slots, the edge property is the target's, all required
+fields arrive; for `Graph` / `GraphMap` no vacancy at all -/
+abbrev WireOK := SerdeProofs.WireOK
+/-- the consistency guarantees of `Graph` / `StableGraph` visible in an observation, declaratively -/
+abbrev ObsOK := SerdeProofs.ObsOK
+abbrev MapObsOK := SerdeProofs.MapObsOK
+
+/-- the multiset comparison all judges are built from is equality up to order -/
+theorem C17_sameMultiset_iff_perm {α} [BEq α] [LawfulBEq α] (a b : List α) : sameMultiset a b = true ↔ a.Perm b :=
+  SerdeProofs.sameMultiset_iff_perm a b
+
+/-- **`wireValid` is sound**. -/
+theorem C17_wireValid_sound (kind : Kind) (END : Nat) (directed : Bool) (order : List Field) (w : Wire)
+    (h : wireValid kind END directed order w = true) : WireOK kind END directed order w :=
+  SerdeProofs.wireValid_sound kind END directed order w h
+
+/-- **`wireValid` and `absWire` are sound against the mirror model, `StableGraph`**: a stream the judge calls valid,
+below the capacity of the index type (`wireCapB`), IS loaded — as a consistent graph whose live nodes and live edges,
+with indices, weights and endpoints, are exactly the abstract graph `absWire` assigns to the stream.  So the verdict
+"a valid stream was refused" is never raised against an implementation that agrees with the mirror model (at capacity
+`count = END` the code refuses: open finding D20). -/
+theorem C17_wireValid_loads_stable (END : Nat) (directed : Bool) (order : List Field) (w : Wire)
+    (hv : wireValid .stable END directed order w = true) (hcap : wireCapB END order w = true) :
+    ∃ s, deStable END directed order w = .ok s ∧ StableInv s ∧
+      liveNodes s.g = (absWire .stable END directed order w).nodes ∧
+      liveEdges s.g = (absWire .stable END directed order w).edges := by
+  simp only [wireCapB, Bool.and_eq_true, decide_eq_true_eq] at hcap
+  exact SerdeProofs.wireValid_loads_stable END directed order w hv hcap.1 hcap.2
+
+/-- the same for `Graph`. -/
+theorem C17_wireValid_loads_graph (END : Nat) (directed : Bool) (order : List Field) (w : Wire)
+    (hv : wireValid .graph END directed order w = true) (hcap : wireCapB END order w = true) :
+    ∃ g, deGraph END directed order w = .ok g ∧ GraphInv g ∧
+      liveNodes g = (absWire .graph END directed order w).nodes ∧
+      liveEdges g = (absWire .graph END directed order w).edges := by
+  simp only [wireCapB, Bool.and_eq_true, decide_eq_true_eq] at hcap
+  exact SerdeProofs.wireValid_loads_graph END directed order w hv (by omega) hcap.2
+
+/-- the same for `GraphMap` (through `Graph<_,_,_,u32>` and `from_graph`): the loaded map has exactly the node values —
+in first-occurrence order — and the edge map — one entry per canonical key in first-occurrence order, with the LAST
+weight — that `absWire` assigns to the stream (`mapOfGraph`). -/
+theorem C17_wireValid_loads_map (directed : Bool) (order : List Field) (w : Wire)
+    (hv : wireValid .map 4294967295 directed order w = true) (hcap : wireCapB 4294967295 order w = true) :
+    ∃ m, deMap directed order w = .ok m ∧ m.directed = directed ∧
+      m.nodes.map (·.1) = (absWire .map 4294967295 directed order w).mnodes ∧
+      m.edges = (absWire .map 4294967295 directed order w).medges := by
+  simp only [wireCapB, Bool.and_eq_true, decide_eq_true_eq] at hcap
+  exact SerdeProofs.wireValid_loads_map directed order w hv (by omega) hcap.2
+
+/-- non-vacuity, `GraphMap`: duplicate node values and parallel edges in the stream are merged -/
+example : wireValid .map 4294967295 false [.n, .p, .e]
+      { nodes := [7, 3, 7], holes := [], prop := some false, edges := [some (0, 1, 5), some (1, 2, 6)] } = true ∧
+    (absWire .map 4294967295 false [.n, .p, .e]
+      { nodes := [7, 3, 7], holes := [], prop := some false, edges := [some (0, 1, 5), some (1, 2, 6)] }).medges =
+      [((3, 7), 6)] := by decide
+
+/-- non-vacuity: a stream with a hole, a vacant edge, a self loop and parallel edges, fields out of order -/
+example : wireValid .stable 255 true [.p, .e, .h, .n]
+      { nodes := [1, 2, 3], holes := [1], prop := some true, edges := [some (0, 2, 5), none, some (2, 2, 6), some (0, 2, 7)] } = true ∧
+    wireCapB 255 [.p, .e, .h, .n]
+      { nodes := [1, 2, 3], holes := [1], prop := some true, edges := [some (0, 2, 5), none, some (2, 2, 6), some (0, 2, 7)] } = true := by
+  decide
+
+/-- **`obsConsistent` is sound**: an observation it accepts satisfies every consistency guarantee of the type. -/
+theorem C17_obsConsistent_sound (kind : Kind) (END : Nat) (directed : Bool) (o : Obs)
+    (h : obsConsistent kind END directed o = none) : ObsOK kind END directed o :=
+  SerdeProofs.obsConsistent_sound kind END directed o h
+
+/-- **the observation judge is sound**: what it accepts is consistent and shows exactly the abstract graph — the same
+(index, weight) nodes and (index, source, target, weight) edges (only (source, target, weight) where the documentation
+of `Graph::remove_node` leaves the edge ids open). -/
+theorem C17_judgeObs_sound (a a' : AGraph) (o : Obs) (h : judgeObs a o = .ok a') :
+    ObsOK a.kind a.END a.directed o ∧ o.nodes.Perm a.nodes ∧
+    (a.looseEdgeIds = false → o.edges.Perm a.edges) ∧
+    (a.looseEdgeIds = true →
+      (o.edges.map fun (_, s, t, w) => (s, t, w)).Perm (a.edges.map fun (_, s, t, w) => (s, t, w))) ∧
+    a' = { a with edges := o.edges, looseEdgeIds := false } :=
+  SerdeProofs.judgeObs_sound a a' o h
+
+/-- non-vacuity: the observation of an undirected `StableGraph` with a vacancy, a self loop and parallel edges is
+accepted against the abstract graph it shows; one with a wrong `node_bound` is not -/
+example :
+    let a : AGraph := { kind := .stable, END := 255, directed := false, nodes := [(0, 5), (2, 7)],
+                        edges := [(0, 0, 2, 1), (1, 2, 0, 1), (3, 2, 2, 4)] }
+    let o : Obs := { nc := 2, ec := 3, nb := 3, eb := 4, nodes := [(0, 5), (2, 7)],
+                     edges := [(0, 0, 2, 1), (1, 2, 0, 1), (3, 2, 2, 4)],
+                     adj := [(0, [(1, 0, 2), (0, 0, 2)], [(0, 2, 0), (1, 2, 0)], [2, 2]),
+                             (2, [(3, 2, 2), (1, 2, 0), (0, 2, 0)], [(0, 0, 2), (3, 2, 2), (1, 0, 2)], [2, 0, 0])] }
+    (match judgeObs a o with | .ok _ => true | .error _ => false) = true ∧
+    (match judgeObs a { o with nb := 2 } with | .ok _ => true | .error _ => false) = false := by decide
+
+theorem C17_mapObsConsistent_sound (directed : Bool) (o : MapObs) (h : mapObsConsistent directed o = none) :
+    MapObsOK directed o := SerdeProofs.mapObsConsistent_sound directed o h
+
+theorem C17_judgeMapObs_sound (a a' : AGraph) (o : MapObs) (h : judgeMapObs a o = .ok a') :
+    MapObsOK a.directed o ∧ o.nodes.Perm a.mnodes ∧ o.edges.Perm a.medges ∧ a' = a :=
+  SerdeProofs.judgeMapObs_sound a a' o h
+
+/-- **the round-trip judge decides exactly the property's clause**: "same node and edge indices, weights, direction". -/
+theorem C17_judgeRoundTrip_sound (src a' : AGraph) (directed : Bool) :
+    judgeRoundTrip src a' directed = true ↔
+      (src.nodes.Perm a'.nodes ∧ src.edges.Perm a'.edges ∧ src.directed = directed) :=
+  ⟨SerdeProofs.judgeRoundTrip_sound src a' directed, SerdeProofs.judgeRoundTrip_complete src a' directed⟩
+
+/-- **the serialization judge is sound**: a stream it accepts is a well-formed stream of the graph's own type and
+denotes exactly the abstract graph. -/
+theorem C17_judgeSer_sound (spec : AGraph) (w : Wire) (h : judgeSer spec w = none) :
+    WireOK (if spec.kind == .map then Kind.graph else spec.kind) spec.END spec.directed [.n, .h, .p, .e] w ∧
+    (spec.kind ≠ .map → (wireNodes w).Perm spec.nodes ∧ (wireEdges w).Perm spec.edges) ∧
+    (spec.kind = .map →
+      (mapOfGraph spec.directed (wireNodes w) (wireEdges w)).1.Perm spec.mnodes ∧
+      (mapOfGraph spec.directed (wireNodes w) (wireEdges w)).2.Perm spec.medges) :=
+  SerdeProofs.judgeSer_sound spec w h
+
+/-- **end to end**: when the driver accepts the observation of a `StableGraph` loaded from a valid stream below
+capacity, the observation is consistent and shows — index for index — the live nodes and edges of the graph the mirror
+model loads from that stream (which satisfies `StableInv`). -/
+theorem C17_accepted_load_is_the_model_graph (END : Nat) (directed : Bool) (order : List Field) (w : Wire)
+    (hv : wireValid .stable END directed order w = true) (hcap : wireCapB END order w = true)
+    (o : Obs) (a' : AGraph) (hj : judgeObs (absWire .stable END directed order w) o = .ok a') :
+    ∃ s, deStable END directed order w = .ok s ∧ StableInv s ∧ ObsOK .stable END directed o ∧
+      o.nodes.Perm (liveNodes s.g) ∧ o.edges.Perm (liveEdges s.g) := by
+  obtain ⟨s, h1, h2, h3, h4⟩ := C17_wireValid_loads_stable END directed order w hv hcap
+  obtain ⟨k1, k2, k3, _, _⟩ := C17_judgeObs_sound _ _ _ hj
+  exact ⟨s, h1, h2, k1, by rw [h3]; exact k2, by rw [h4]; exact k3 rfl⟩
+
+/-- **the observation judge raises no false alarm**: the observation of EVERY mirror-model `StableGraph` that satisfies
+`StableInv` — in particular of every loaded one and of everything a further call history makes of it — is accepted by the
+judge against the abstract graph the state denotes (`absOfRaw`: its live nodes and edges).  So a SPECFAIL of the
+observation judge can only come from an implementation answer that differs from the mirror model's. -/
+theorem C17_judgeObs_no_false_alarm_stable (s : Stable) (hI : StableInv s) (o : Obs) (h : s.obs = .ok o) :
+    ∃ a', judgeObs (SerdeProofs.absOfRaw .stable s.g) o = .ok a' :=
+  SerdeProofs.judgeObs_of_stableInv s hI o h
+
+/-- the same for `Graph` (compact indices included). -/
+theorem C17_judgeObs_no_false_alarm_graph (g : Raw) (hI : GraphInv g) (o : Obs) (h : g.obs = .ok o) :
+    ∃ a', judgeObs (SerdeProofs.absOfRaw .graph g) o = .ok a' :=
+  SerdeProofs.judgeObs_of_graphInv g hI o h
+
+/-- on a consistent structure the iterators of a live node return, up to order, exactly the incident edges and
+neighbours the judge expects (`expectedOut` / `expectedIn` / `expectedNbrs` of the live edge list), directed and
+undirected, self loops and parallel edges included. -/
+theorem C17_node_iterators_expected (g : Raw) (hI : SerdeProofs.RawInv g) (i : Nat) (nd : NodeSlot)
+    (hi : g.nodes[i]? = some nd) (hl : nd.w.isSome = true) :
+    ∃ o n u, g.edgesDirected i true = .ok o ∧ g.edgesDirected i false = .ok n ∧ g.neighborsUndirected i = .ok u ∧
+      o.Perm (expectedOut g.directed (liveEdges g) i) ∧ n.Perm (expectedIn g.directed (liveEdges g) i) ∧
+      u.Perm (expectedNbrs (liveEdges g) i) :=
+  SerdeProofs.node_iterators_expected g hI i nd hi hl
+
+/-- every loaded `StableGraph` can be observed and its observation is accepted (for EVERY wire value that loads) -/
+theorem C17_loaded_observation_accepted (END : Nat) (directed : Bool) (order : List Field) (w : Wire) (s : Stable)
+    (h : deStable END directed order w = .ok s) :
+    ∃ o a', s.obs = .ok o ∧ judgeObs (SerdeProofs.absOfRaw .stable s.g) o = .ok a' := by
+  obtain ⟨o, ho⟩ := (C17_loaded_observable END directed order w).1 s h
+  obtain ⟨a', ha'⟩ := C17_judgeObs_no_false_alarm_stable s (C17_de_inv_stable END directed order w s h).1 o ho
+  exact ⟨o, a', ho, ha'⟩
+
+/-! ### wave 4 (c): run-time checks of the hypotheses
+
+Every hypothesis of the round-trip / loading theorems that concerns the concrete case has an executable Boolean in
+`Spec/SerdeCheck.lean`; the driver evaluates it on every line the theorem is used for (`ser`: the invariant of the
+state being serialized; `de`: `wireValid`, `wireCapB`, for a round trip `fullOrderB`; `ser … bin`: `binFits`), and these
+theorems turn `true` into the hypothesis. -/
+
+theorem C17_stableInv_check (s : Stable) (h : stableInvB s = true) : StableInv s := SerdeProofs.stableInvB_sound s h
+
+theorem C17_graphInv_check (g : Raw) (h : graphInvB g = true) : GraphInv g := SerdeProofs.graphInvB_sound g h
+
+/-- the hypotheses of `C17_roundtrip_map` -/
+theorem C17_mapWf_check (m : GMap) (h : mapWfB m = true) :
+    (∀ a b w, ((a, b), w) ∈ m.edges → (m.nodes.map (·.1)).contains a ∧ (m.nodes.map (·.1)).contains b) ∧
+    (m.nodes.map (·.1)).Nodup ∧ (m.edges.map (·.1)).Nodup ∧
+    (∀ a b w, ((a, b), w) ∈ m.edges → m.directed = true ∨ a ≤ b) := SerdeProofs.mapWfB_sound m h
+
+theorem C17_fullOrder_check (order : List Field) (h : fullOrderB order = true) : FullOrder order :=
+  SerdeProofs.fullOrderB_sound order h
+
+theorem C17_graphOrder_check (order : List Field) (h : graphOrderB order = true) :
+    Field.n ∈ order ∧ Field.p ∈ order ∧ Field.e ∈ order := SerdeProofs.graphOrderB_sound order h
+
+theorem C17_stableCap_check (s : Stable) (h : stableCapB s = true) : s.nodeBound < s.g.END ∧ s.edgeBound < s.g.END := by
+  simpa [stableCapB] using h
+
+theorem C17_graphCap_check (g : Raw) (h : graphCapB g = true) : g.nodes.length < g.END ∧ g.edges.length < g.END := by
+  simpa [graphCapB] using h
+
+theorem C17_mapCap_check (m : GMap) (h : mapCapB m = true) :
+    m.nodes.length < 4294967295 ∧ m.edges.length < 4294967295 := by
+  simpa [mapCapB] using h
+
+theorem C17_wireCap_check (END : Nat) (order : List Field) (w : Wire) (h : wireCapB END order w = true) :
+    w.nodes.length + (effWire order w).holes.length < END ∧ w.edges.length < END := by
+  simpa [wireCapB] using h
+
+/-- the hypotheses `hvN`, `hvE` of `C17_crossload_stable_to_graph` -/
+theorem C17_noVacancy_check (s : Stable) (h : noVacancyB s = true) :
+    (∀ n, n ∈ s.g.nodes.take s.nodeBound → n.w.isSome = true) ∧
+    (∀ e, e ∈ s.g.edges.take s.edgeBound → e.w.isSome = true) := by
+  simpa [noVacancyB] using h
+
+/-- non-vacuity of the checks: the state with two node vacancies of `C17_roundtrip_free_list_order_witness` passes -/
+example : stableInvB { g := { END := 255, directed := true,
+                              nodes := [⟨none, 1, 255⟩, ⟨none, 255, 0⟩, ⟨some 12, 255, 255⟩], edges := [] },
+                       nodeCount := 1, edgeCount := 0, freeNode := 0, freeEdge := 255 } = true := by decide
+
+/-- … and the checks can fail: a back pointer of the free node list is wrong -/
+example : stableInvB { g := { END := 255, directed := true,
+                              nodes := [⟨none, 1, 255⟩, ⟨none, 255, 7⟩, ⟨some 12, 255, 255⟩], edges := [] },
+                       nodeCount := 1, edgeCount := 0, freeNode := 0, freeEdge := 255 } = false := by decide
+
+/-! ### wave 4 (d): WHAT a round trip preserves — exactly the abstract indexed graph
+
+`viewRaw g : IView` = edge type, the live node indices with weights, the live edge indices with source, target and
+weight, `node_bound`, `edge_bound`.  For a `GraphMap`, `viewMap m : MView` = edge type, the node keys IN ORDER, the edge
+map IN ORDER with weights.  For each of the three types:
+
+* *preserved*: the loaded value has the same view (and index type, and counts); it has no slot beyond the bounds; it
+  serializes to the very same stream; it is a fixed point — loading its stream in any field order returns the very same
+  value, pointer for pointer;
+* *nothing else*: the stream is a function of the view, so two values with the same view have the identical stream and
+  the identical loaded value.  Whatever distinguishes two values with the same view — adjacency-list order, free-list
+  order (hence which index the next `add_node` / `add_edge` hands out), vacancies beyond the bounds, the order inside a
+  `GraphMap` adjacency vector — is NOT preserved (witnesses below), it is replaced by the canonical choice that
+  `C17_de_lists_exact` / `adjFrom` describe. -/
+
+abbrev IView := SerdeProofs.IView
+abbrev viewRaw := SerdeProofs.viewRaw
+abbrev MView := SerdeProofs.MView
+abbrev viewMap := SerdeProofs.viewMap
+
+theorem C17_roundtrip_preserved_stable (s : Stable) (hI : StableInv s) (order : List Field) (ho : FullOrder order)
+    (hcapN : s.nodeBound < s.g.END) (hcapE : s.edgeBound < s.g.END) :
+    ∃ w s', serStable s = some w ∧ deStable s.g.END s.g.directed order w = .ok s' ∧
+      StableInv s' ∧ viewRaw s'.g = viewRaw s.g ∧ s'.g.END = s.g.END ∧
+      s'.nodeCount = s.nodeCount ∧ s'.edgeCount = s.edgeCount ∧
+      s'.g.nodes.length = s.nodeBound ∧ s'.g.edges.length = s.edgeBound ∧
+      serStable s' = some w ∧
+      (∀ order', FullOrder order' → deStable s'.g.END s'.g.directed order' w = .ok s') :=
+  SerdeProofs.roundtrip_stable_preserved s hI order ho hcapN hcapE
+
+/-- non-vacuity: the `StableGraph` with two node vacancies of `C17_roundtrip_free_list_order_witness` satisfies the
+hypotheses (as the driver evaluates them) -/
+example :
+    let s : Stable := { g := { END := 255, directed := true,
+                               nodes := [⟨none, 1, 255⟩, ⟨none, 255, 0⟩, ⟨some 12, 255, 255⟩], edges := [] },
+                        nodeCount := 1, edgeCount := 0, freeNode := 0, freeEdge := 255 }
+    stableInvB s = true ∧ stableCapB s = true ∧ fullOrderB [.p, .e, .h, .n] = true := by decide
+
+theorem C17_roundtrip_only_view_stable (s1 s2 : Stable) (h1 : StableInv s1) (h2 : StableInv s2)
+    (hE : s1.g.END = s2.g.END) (h : viewRaw s1.g = viewRaw s2.g) (order : List Field) :
+    serStable s1 = serStable s2 ∧
+    (serStable s1).map (deStable s1.g.END s1.g.directed order) = (serStable s2).map (deStable s2.g.END s2.g.directed order) :=
+  SerdeProofs.roundtrip_stable_only_view s1 s2 h1 h2 hE h order
+
+theorem C17_roundtrip_preserved_graph (g : Raw) (hI : GraphInv g) (order : List Field)
+    (ho : Field.n ∈ order ∧ Field.p ∈ order ∧ Field.e ∈ order)
+    (hcapN : g.nodes.length < g.END) (hcapE : g.edges.length < g.END) :
+    ∃ g', deGraph g.END g.directed order (serGraph g) = .ok g' ∧
+      GraphInv g' ∧ viewRaw g' = viewRaw g ∧ g'.END = g.END ∧
+      serGraph g' = serGraph g ∧
+      (∀ order', (Field.n ∈ order' ∧ Field.p ∈ order' ∧ Field.e ∈ order') →
+        deGraph g'.END g'.directed order' (serGraph g') = .ok g') :=
+  SerdeProofs.roundtrip_graph_preserved g hI order ho hcapN hcapE
+
+theorem C17_roundtrip_only_view_graph (g1 g2 : Raw) (h1 : GraphInv g1) (h2 : GraphInv g2) (hE : g1.END = g2.END)
+    (h : viewRaw g1 = viewRaw g2) (order : List Field) :
+    serGraph g1 = serGraph g2 ∧
+    deGraph g1.END g1.directed order (serGraph g1) = deGraph g2.END g2.directed order (serGraph g2) :=
+  SerdeProofs.roundtrip_graph_only_view g1 g2 h1 h2 hE h order
+
+theorem C17_roundtrip_preserved_map (m : GMap) (order : List Field)
+    (ho : Field.n ∈ order ∧ Field.p ∈ order ∧ Field.e ∈ order)
+    (hends : ∀ a b w, ((a, b), w) ∈ m.edges → (m.nodes.map (·.1)).contains a ∧ (m.nodes.map (·.1)).contains b)
+    (hn : (m.nodes.map (·.1)).Nodup) (he : (m.edges.map (·.1)).Nodup)
+    (hcanon : ∀ a b w, ((a, b), w) ∈ m.edges → m.directed = true ∨ a ≤ b)
+    (hcapN : m.nodes.length < 4294967295) (hcapE : m.edges.length < 4294967295) :
+    ∃ w m', serMap m = some w ∧ deMap m.directed order w = .ok m' ∧
+      viewMap m' = viewMap m ∧ m'.nodes = (m.nodes.map (·.1)).map (fun k => (k, adjFrom m.edges k)) ∧
+      serMap m' = some w ∧
+      (∀ order', (Field.n ∈ order' ∧ Field.p ∈ order' ∧ Field.e ∈ order') → deMap m'.directed order' w = .ok m') := by
+  obtain ⟨w, m', h1, h2, h3, h4, h5, h6⟩ := SerdeProofs.roundtrip_map_preserved m order ho
+    (fun a b w hm => by simpa using hends a b w hm) hn he hcanon hcapN hcapE
+  exact ⟨w, m', h1, h2, h3, by rw [h4]; rfl, h5, h6⟩
+
+theorem C17_roundtrip_only_view_map (m1 m2 : GMap) (h : viewMap m1 = viewMap m2)
+    (hends : ∀ a b w, ((a, b), w) ∈ m1.edges → (m1.nodes.map (·.1)).contains a ∧ (m1.nodes.map (·.1)).contains b)
+    (hcapN : m1.nodes.length ≤ 4294967295) (hcapE : m1.edges.length ≤ 4294967295) (order : List Field) :
+    serMap m1 = serMap m2 ∧
+    (serMap m1).map (deMap m1.directed order) = (serMap m2).map (deMap m2.directed order) :=
+  SerdeProofs.roundtrip_map_only_view m1 m2 h (fun a b w hm => by simpa using hends a b w hm) hcapN hcapE order
+
+/-- **what a round trip preserves, as one statement**: for `StableGraph` (with any vacancies), `Graph` and `GraphMap`,
+below the capacity of the index type, the round trip is the identity on the view, and is a function of the view. -/
+theorem C17_roundtrip_preserves_exactly_the_view :
+    (∀ (s : Stable), StableInv s → ∀ order, FullOrder order → s.nodeBound < s.g.END → s.edgeBound < s.g.END →
+      ∃ w s', serStable s = some w ∧ deStable s.g.END s.g.directed order w = .ok s' ∧ viewRaw s'.g = viewRaw s.g ∧
+        serStable s' = some w ∧
+        ∀ s2, StableInv s2 → s2.g.END = s.g.END → viewRaw s2.g = viewRaw s.g → serStable s2 = some w) ∧
+    (∀ (g : Raw), GraphInv g → ∀ order, (Field.n ∈ order ∧ Field.p ∈ order ∧ Field.e ∈ order) →
+      g.nodes.length < g.END → g.edges.length < g.END →
+      ∃ g', deGraph g.END g.directed order (serGraph g) = .ok g' ∧ viewRaw g' = viewRaw g ∧
+        serGraph g' = serGraph g ∧
+        ∀ g2, GraphInv g2 → viewRaw g2 = viewRaw g → serGraph g2 = serGraph g) ∧
+    (∀ (m : GMap) order, (Field.n ∈ order ∧ Field.p ∈ order ∧ Field.e ∈ order) →
+      (∀ a b w, ((a, b), w) ∈ m.edges → (m.nodes.map (·.1)).contains a ∧ (m.nodes.map (·.1)).contains b) →
+      (m.nodes.map (·.1)).Nodup → (m.edges.map (·.1)).Nodup →
+      (∀ a b w, ((a, b), w) ∈ m.edges → m.directed = true ∨ a ≤ b) →
+      m.nodes.length < 4294967295 → m.edges.length < 4294967295 →
+      ∃ w m', serMap m = some w ∧ deMap m.directed order w = .ok m' ∧ viewMap m' = viewMap m ∧
+        serMap m' = some w ∧
+        ∀ m2, viewMap m2 = viewMap m → serMap m2 = some w) := by
+  refine ⟨?_, ?_, ?_⟩
+  · intro s hI order ho hcN hcE
+    obtain ⟨w, s', h1, h2, _, h4, _, _, _, _, _, h10, _⟩ := C17_roundtrip_preserved_stable s hI order ho hcN hcE
+    exact ⟨w, s', h1, h2, h4, h10, fun s2 hI2 _ hv => by
+      rw [SerdeProofs.serStable_of_view s2 s hI2 hI hv]; exact h1⟩
+  · intro g hI order ho hcN hcE
+    obtain ⟨g', h1, _, h3, _, h5, _⟩ := C17_roundtrip_preserved_graph g hI order ho hcN hcE
+    exact ⟨g', h1, h3, h5, fun g2 hI2 hv => SerdeProofs.serGraph_of_view g2 g hI2 hI hv⟩
+  · intro m order ho hends hn he hcanon hcN hcE
+    obtain ⟨w, m', h1, h2, h3, _, h5, _⟩ := C17_roundtrip_preserved_map m order ho hends hn he hcanon hcN hcE
+    refine ⟨w, m', h1, h2, h3, h5, fun m2 hv => ?_⟩
+    rw [← h1]
+    exact (SerdeProofs.serMap_of_view m m2 hv.symm (fun a b w hm => by simpa using hends a b w hm)
+      (by omega) (by omega)).symm
+
+/-- **per node, the same incident edges up to order**: two consistent graphs with the same order-independent
+observables (`SameObs`: a graph and its round trip, by `C17_roundtrip_stable` / `C17_roundtrip_graph`) answer
+`edges_directed(i, Outgoing)`, `edges_directed(i, Incoming)` and `neighbors_undirected(i)` of every live node `i`
+with lists that are permutations of each other. -/
+theorem C17_sameObs_iterators_perm (g g' : Raw) (hI : SerdeProofs.RawInv g) (hI' : SerdeProofs.RawInv g')
+    (hEND : g'.END = g.END) (hd : g'.directed = g.directed) (O : SameObs g g') (i : Nat) (nd : NodeSlot)
+    (hi : g.nodes[i]? = some nd) (hl : nd.w.isSome = true) :
+    ∃ o n u o' n' u', g.edgesDirected i true = .ok o ∧ g.edgesDirected i false = .ok n ∧
+      g.neighborsUndirected i = .ok u ∧ g'.edgesDirected i true = .ok o' ∧ g'.edgesDirected i false = .ok n' ∧
+      g'.neighborsUndirected i = .ok u' ∧ o'.Perm o ∧ n'.Perm n ∧ u'.Perm u :=
+  SerdeProofs.sameObs_iterators_perm g g' hI hI' hEND hd O i nd hi hl
+
+/-- the `StableGraph` round trip, per node -/
+theorem C17_roundtrip_iterators_perm (s : Stable) (hI : StableInv s) (order : List Field) (ho : FullOrder order)
+    (hcapN : s.nodeBound < s.g.END) (hcapE : s.edgeBound < s.g.END) :
+    ∃ w s', serStable s = some w ∧ deStable s.g.END s.g.directed order w = .ok s' ∧
+      ∀ (i : Nat) (nd : NodeSlot), s.g.nodes[i]? = some nd → nd.w.isSome = true →
+        ∃ o n u o' n' u', s.g.edgesDirected i true = .ok o ∧ s.g.edgesDirected i false = .ok n ∧
+          s.g.neighborsUndirected i = .ok u ∧ s'.g.edgesDirected i true = .ok o' ∧
+          s'.g.edgesDirected i false = .ok n' ∧ s'.g.neighborsUndirected i = .ok u' ∧
+          o'.Perm o ∧ n'.Perm n ∧ u'.Perm u := by
+  obtain ⟨w, s', h1, h2, D, O, _, _⟩ := roundtrip_stable_stable s hI order ho hcapN hcapE
+  exact ⟨w, s', h1, h2, fun i nd hi hl =>
+    SerdeProofs.sameObs_iterators_perm s.g s'.g hI.toRawInv D.inv.toRawInv D.hEND D.hdir O i nd hi hl⟩
+
+/-- the ORDER inside an adjacency list is not preserved: `add_edge(0,1)` ×3 then `remove_edge(0)` (the last edge takes
+index 0) leaves node 0 with the outgoing list `[0, 1]`; after the round trip it is `[1, 0]` (descending). -/
+theorem C17_roundtrip_adjacency_order_witness :
+    let g : Raw := { END := 255, directed := true,
+                     nodes := [⟨some 10, 0, 255⟩, ⟨some 11, 255, 0⟩],
+                     edges := [⟨some 7, 1, 1, 0, 1⟩, ⟨some 6, 255, 255, 0, 1⟩] }
+    graphInvB g = true ∧
+    g.edgesDirected 0 true = .ok [(0, 0, 1), (1, 0, 1)] ∧
+    (match deGraph 255 true [.n, .h, .p, .e] (serGraph g) with
+      | .ok g' => g'.edgesDirected 0 true
+      | .error _ => .error .oob) = .ok [(1, 0, 1), (0, 0, 1)] := by
+  decide
+
+/-- neither is the order inside a `GraphMap` adjacency vector: after `add_edge(5,6)`, `add_edge(2,3)`, `add_edge(2,4)`,
+`remove_edge(5,6)` the neighbours of `2` are `[3, 4]`; after the round trip `[4, 3]` (edge-map order). -/
+theorem C17_roundtrip_map_neighbor_order_witness :
+    let m : GMap := { directed := true,
+                      nodes := [(5, []), (6, []), (2, [(3, true), (4, true)]), (3, [(2, false)]), (4, [(2, false)])],
+                      edges := [((2, 4), 3), ((2, 3), 2)] }
+    mapWfB m = true ∧ m.neighborsDirected 2 true = [3, 4] ∧
+    (match (serMap m).map (deMap true [.n, .h, .p, .e]) with
+      | some (.ok m') => m'.neighborsDirected 2 true
+      | _ => []) = [4, 3] := by
+  decide
+
+/-- **which index a loaded `StableGraph` hands out next**: both free lists start at the LARGEST vacant index (`END`
+when there is no vacancy). -/
+theorem C17_loaded_free_heads (END : Nat) (directed : Bool) (order : List Field) (w : Wire) (s : Stable)
+    (h : deStable END directed order w = .ok s) :
+    s.freeNode = (vacantN s.g.nodes).head?.getD END ∧ s.freeEdge = (vacantE s.g.edges).head?.getD END ∧
+    (∀ (j : Nat) (nd : NodeSlot), s.g.nodes[j]? = some nd → nd.w = none →
+      ∃ m, (vacantN s.g.nodes).head? = some m ∧ j ≤ m) ∧
+    (∀ (j : Nat) (e : EdgeSlot), s.g.edges[j]? = some e → e.w = none →
+      ∃ m, (vacantE s.g.edges).head? = some m ∧ j ≤ m) :=
+  SerdeProofs.loaded_free_heads h
+
+/-- the next `add_node` on a loaded `StableGraph` returns the largest vacant node index; without a vacancy it appends
+(and cannot fail: a loaded graph is below the capacity of its index type). -/
+theorem C17_loaded_next_node_index (END : Nat) (directed : Bool) (order : List Field) (w : Wire) (s s1 : Stable)
+    (r : Except OpErr Nat) (h : deStable END directed order w = .ok s) (x : Int) (hr : s.tryAddNode x = .ok (s1, r)) :
+    (∃ i nd, r = .ok i ∧ s.g.nodes[i]? = some nd ∧ nd.w = none ∧
+      ∀ (j : Nat) (nd' : NodeSlot), s.g.nodes[j]? = some nd' → nd'.w = none → j ≤ i) ∨
+    ((∀ (j : Nat) (nd' : NodeSlot), s.g.nodes[j]? = some nd' → nd'.w ≠ none) ∧ r = .ok s.g.nodes.length) :=
+  SerdeProofs.loaded_next_node_index h x hr
 
 end PetgraphModel.C17T
